@@ -502,6 +502,13 @@ class Program:
                 return BackendTable(entries, expr, scope)
             if isinstance(callee, BackendTable):
                 return SelectedBackend(callee)   # mapper(agg) -> the entry selected for agg's array type
+            if isinstance(callee, Func) and not callee.is_lambda and callee.jit is None and not expr.args and not expr.keywords:
+                # a parameterless factory: `def _mapper(): return ArrayTypeFunctionMapping(...)`, `def _kernel(): return partial(f, k=1)`
+                body = [s_ for s_ in callee.node.body if not (isinstance(s_, ast.Expr) and isinstance(s_.value, ast.Constant))]
+                if len(body) == 1 and isinstance(body[0], ast.Return) and body[0].value is not None:
+                    made = self.resolve_callable(callee, callee.module, body[0].value, depth + 1)
+                    if isinstance(made, (BackendTable, Partial, Func)):
+                        return made
             return ('callresult', callee, expr, module, scope)
         return None
 
